@@ -15,8 +15,10 @@ outcome, which is an input** of the model:
   → `UnallowedMethod` (4.05 "Error: Method not allowed!"); not a request code → `UnsupportedMethod`;
   default response code by method when the handler's message has none; the request's No-Response
   value is copied into a response that has none;
-* `run_driving_pipe` (pipe.py:205-231): an exception ends up as a terminal event on the inner
-  pipe; a `CancelledError` does so only if nobody cancelled the task;
+* `run_driving_pipe` (pipe.py:205-242): an exception ends up as a terminal event on the inner
+  pipe — `Exception`s, and since round 4 every other `BaseException` but KeyboardInterrupt,
+  SystemExit and GeneratorExit (outcome class `raisesOther`); a `CancelledError` does so only if
+  nobody cancelled the task;
 * `error_to_message` (pipe.py:234-284): see `Pipe.lean`.
 
 A *wrong return type* (`None`, `str`, `int`, …) makes `response.code` (resource.py:126) or
@@ -108,10 +110,22 @@ def contextRender (site : Option Site) (req : Request) : Res :=
   | none => .responds { code := 132, payload := notAServerDiag, noResponse := none }
   | some s => siteRender s req
 
-/-- the end of `run_driving_pipe.wrapped()` for a coroutine ending as `res` -/
+/-- the end of `run_driving_pipe.wrapped()` for a coroutine ending as `res`.
+
+`responds m`: the coroutine calls `pipe.add_response(m, is_last=True)` on the outer pipe and
+returns.  On a live outer pipe the first callback is the token manager's `on_event`
+(`ReqState.start`; `C09_two_states`: a live outer pipe is always wired like that), and that
+callback refuses a message whose code is no response code by raising `ValueError` before it has
+touched anything (tokenmanager.py:131-141, round-4 fix: such a message used to leave as a request
+of the server's own, and the client's request stayed unanswered).  The exception leaves
+`_add_event` and `add_response`, ends the coroutine and is the coroutine's outcome for
+`run_driving_pipe`.  On a pipe that has ended no callback is reached: the message is only logged
+(pipe.py:178-183). -/
 def runDriving (res : Res) (st : ReqState) : ReqState × List Eff :=
   match res with
-  | .responds m => outerAddEvent (.message m true) st
+  | .responds m =>
+    if isResponseCode m.code || st.outer.isNone then outerAddEvent (.message m true) st
+    else innerAddEvent (.exception (.other [])) st
   | .raises e => innerAddEvent (.exception e) st
   | .raisesCancelled =>
     if st.cancelRequested then (st, [])                   -- `task.cancelling()`: re-raised
